@@ -267,6 +267,82 @@ def data_drift_cases(out: Outcome, rng, n_cases: int) -> None:
         out.case({"class": "PrequentialError", "alpha": alpha, "n": len(errs)})
 
 
+def user_model_class(in_place: bool):
+    """a user's BOCD model deriving from the abstract base directly (the documented extension point).  `in_place`: it keeps its statistics in containers it UPDATES
+    in place (Python lists, a counter) - as a model with sufficient statistics in pre-allocated buffers or a running Welford state does - instead of re-binding new arrays"""
+    from scipy.stats import norm
+    from frouros.detectors.concept_drift.streaming.change_detection.bocd import BaseBOCDModel
+
+    class UserModel(BaseBOCDModel):
+        def __init__(self, prior_mean=0.0, prior_var=1.0, data_var=1.0):
+            super().__init__()
+            self.mu = [float(prior_mean)]
+            self.prec = [1.0 / prior_var]
+            self.dv = float(data_var)
+            self.seen = {"n": 0}
+
+        def log_pred_prob(self, idx, value):
+            mu, prec = np.array(self.mu[:idx]), np.array(self.prec[:idx])
+            return norm(mu, np.sqrt(1 / prec + self.dv)).logpdf(value)
+
+        def update(self, value, **kwargs):
+            new_prec = [q + 1 / self.dv for q in self.prec]
+            new_mu = [(m * q + value / self.dv) / nq for m, q, nq in zip(self.mu, self.prec, new_prec)]
+            if in_place:
+                self.prec[1:] = new_prec
+                self.mu[1:] = new_mu
+                self.seen["n"] += 1
+            else:
+                self.prec = [self.prec[0]] + new_prec
+                self.mu = [self.mu[0]] + new_mu
+                self.seen = {"n": self.seen["n"] + 1}
+
+        @property
+        def mean_params(self):
+            return np.array(self.mu)
+
+        @property
+        def var_params(self):
+            return 1 / np.array(self.prec) + self.dv
+
+    return UserModel
+
+
+def bocd_user_model_cases(out: Outcome, rng) -> None:
+    """BOCD with a USER-DEFINED model: after any pre-history and reset() the detector continues exactly like a new one built from a new configuration, and the model object
+    the configuration holds is never touched by the detector (it is the prototype every reset starts from)"""
+    import frouros.detectors.concept_drift as cd
+    for in_place in (True, False):
+        UM = user_model_class(in_place)
+        pm, pv, dv = rng.choice([0.0, 1.5]), rng.choice([1.0, 4.0]), rng.choice([1.0, 0.25])
+        pre = [rng.gauss(3.0, 1.0) for _ in range(rng.randint(5, 60))]
+        post = [rng.gauss(0.0, 1.0) for _ in range(25)] + [rng.gauss(4.0, 1.0) for _ in range(25)]
+        rep = {"class": "BOCD", "model": "user-defined, " + ("updates its containers in place" if in_place else "re-binds new containers"), "pre": pre, "post": post,
+               "prior_mean": pm, "prior_var": pv, "data_var": dv}
+        try:
+            proto = UM(pm, pv, dv)
+            a = cd.BOCD(config=cd.BOCDConfig(model=proto, min_num_instances=rng.choice([5, 20])))
+            mn = a.config.min_num_instances
+            for v in pre:
+                a.update(value=v)
+            if (proto.mu, proto.prec, proto.seen) != ([float(pm)], [1.0 / pv], {"n": 0}):
+                out.violation("BOCD: the model object held by the configuration was modified by the detector's updates (a reset or a second detector would start from it)", rep)
+                continue
+            a.reset()
+            b = cd.BOCD(config=cd.BOCDConfig(model=UM(pm, pv, dv), min_num_instances=mn))
+            for t, v in enumerate(post, 1):
+                a.update(value=v)
+                b.update(value=v)
+                ra, rb = np.asarray(a.log_r)[t, : t + 1], np.asarray(b.log_r)[t, : t + 1]
+                if bool(a.drift) != bool(b.drift) or a.predicted_mean != b.predicted_mean or a.predicted_var != b.predicted_var or not np.array_equal(ra, rb):
+                    out.violation(f"BOCD with a user-defined model: after reset() update {t} gives drift={bool(a.drift)}, predicted_mean={a.predicted_mean!r}; a new detector "
+                                  f"gives drift={bool(b.drift)}, predicted_mean={b.predicted_mean!r}", rep)
+                    break
+        except Exception as e:  # noqa: BLE001
+            out.violation(f"BOCD with a user-defined model raised {type(e).__name__}: {e}", rep)
+        out.case({"class": "BOCD", "user_model_in_place": in_place, "n_pre": len(pre)})
+
+
 def run(out: Outcome) -> None:
     rng = rng_for(out.seed, "C02")
     thorough = out.tier == "thorough"
@@ -306,6 +382,7 @@ def run(out: Outcome) -> None:
         for _ in range(3 if thorough else 1):
             reset_from_callback_case(out, rng, cls)
     data_drift_cases(out, rng, 40 if thorough else 10)
+    bocd_user_model_cases(out, rng)
     corr.compare_batch(out, runners)
 
 
